@@ -90,6 +90,14 @@ SimStep ==
   \/ \E n \in One(NT), ty \in One(OkTypes) : \E d \in One(DataFor(ty)), S \in SimSigners(n, Nil), v \in SimVia(n, Nil) : AddRecord(S, v, n, ty, d)
   \/ \E n \in SimNames, ty \in One(RTypes), i \in One(Ids) : \E d \in One(DataFor(ty)), S \in SimSigners(n, Nil), v \in SimVia(n, Nil) : SetRecord(S, v, n, ty, i, d)
   \/ \E n \in SimNames, ty \in One(RTypes) : \E S \in SimSigners(n, Nil), v \in SimVia(n, Nil) : DeleteRecords(S, v, n, ty)
+  \* record lists: setRecord / addRecord with a value the list already holds (at a lower or higher index, or the
+  \* record's own value) and with a new value, on lists of two and more records
+  \/ \E k \in One({q \in RecKeys : Len(rec[q]) >= 2}) :
+        \E i \in One(0..Len(rec[k])), d \in One(Range(rec[k]) \cup One(DataFor(k[3]))) :
+          \E S \in SimSigners(k[2], Nil), v \in SimVia(k[2], Nil) : SetRecord(S, v, k[2], k[3], i, d)
+  \/ \E k \in One({q \in RecKeys : Len(rec[q]) >= 1}) :
+        \E d \in One(Range(rec[k]) \cup DataFor(k[3])) :
+          \E S \in SimSigners(k[2], Nil), v \in SimVia(k[2], Nil) : AddRecord(S, v, k[2], k[3], d)
 
 SimNext == SimStep /\ g' = GNext(g, ev', now) /\ steps' = steps + 1 /\ hist' = Append(hist, [ev' EXCEPT !.ntf = <<>>])
 SimSpec == MCInit /\ [][SimNext]_mcvars
